@@ -23,6 +23,11 @@ Main results
 * `alias_unique` — the table after `compile`.
 * `phase_lookup` (general) and `phase_lookup_table` (complete 32 × 5 table, by evaluation).
 * `lookup_bounded`, `trim_bounded` — the memo dictionaries stay within 100 / 500 entries.
+* `names_never_move` (+ `_spec`, `step_chems`) — for every history a name of a chemical keeps its position
+  (needs the rejection rule of fixes_proposed/C10-5); `set_fail_frame`, `setSplit_frame`,
+  `setSplit_grp_scalar`, `deep_key_rejected`, `expandRows_get`.
+* The operations covered by `cache_transparent` include `chemicals.array/split`, `by_mass()` views,
+  `SplitIndexer`s and cross-package transfers between multi-phase indexers with phase growth.
 -/
 namespace ThermoVerif.Props.C10
 open ThermoVerif.Chemicals ThermoVerif.Indexer ThermoVerif.IndexCache
@@ -31,8 +36,14 @@ theorem setAlias_existing {c c' : Chem} {res : List String} {id a : String}
     (h : c.setAlias res id a = .ok c') (ha : (alookup a c.index).isNone = false) : c' = c := by
   unfold Chem.setAlias at h
   split at h
-  · cases h
-  · cases h
+  · split at h
+    · split at h
+      · cases h
+      · split at h <;> cases h
+    · cases h
+  · split at h
+    · cases h
+    · split at h <;> cases h
   · split at h
     · cases h
     · split at h
@@ -76,23 +87,28 @@ theorem step_alias (w : World) (h : Inv w) (c : Nat) (id a : String) :
   | some s =>
     simp only [Option.map_some]
     cases ha : s.chem.setAlias reservedAll id a with
-    | error e => exact ⟨rfl, rfl, h⟩
+    | error e =>
+      refine ⟨rfl, obs_redefine w hs _ _, inv_redefine h hs _ _ ?_⟩
+      intro hd
+      split at hd
+      · rename_i heq; exact heq
+      · cases hd
     | ok chem' =>
       refine ⟨rfl, obs_redefine w hs chem' _, inv_redefine h hs chem' _ ?_⟩
       intro hd
       exact setAlias_existing ha hd
 
 theorem step_group (w : World) (h : Inv w) (c : Nat) (name : String) (ids : List String)
-    (comp : Option (List Rat)) :
-    (w.step (.group c name ids comp)).2 = (w.obs.step (.group c name ids comp)).2 ∧
-    (w.step (.group c name ids comp)).1.obs = (w.obs.step (.group c name ids comp)).1 ∧
-    Inv (w.step (.group c name ids comp)).1 := by
+    (comp : Option (List Rat)) (wt : Bool) :
+    (w.step (.group c name ids comp wt)).2 = (w.obs.step (.group c name ids comp wt)).2 ∧
+    (w.step (.group c name ids comp wt)).1.obs = (w.obs.step (.group c name ids comp wt)).1 ∧
+    Inv (w.step (.group c name ids comp wt)).1 := by
   simp only [World.step, PWorld.step, obs_chems_get]
   cases hs : w.chems[c]? with
   | none => exact ⟨rfl, rfl, h⟩
   | some s =>
     simp only [Option.map_some]
-    cases ha : s.chem.defineGroup name ids comp with
+    cases ha : s.chem.defineGroup reservedAll name ids comp wt with
     | error e => exact ⟨rfl, rfl, h⟩
     | ok chem' =>
       exact ⟨rfl, obs_redefine w hs chem' _, inv_redefine h hs chem' _ (by intro hd; cases hd)⟩
@@ -101,6 +117,15 @@ theorem step_newChemIx (w : World) (h : Inv w) (c : Nat) (ph : Char) :
     (w.step (.newChemIx c ph)).2 = (w.obs.step (.newChemIx c ph)).2 ∧
     (w.step (.newChemIx c ph)).1.obs = (w.obs.step (.newChemIx c ph)).1 ∧
     Inv (w.step (.newChemIx c ph)).1 := by
+  simp only [World.step, PWorld.step, obs_chems_get]
+  cases hs : w.chems[c]? with
+  | none => exact ⟨rfl, rfl, h⟩
+  | some s => exact ⟨rfl, rfl, ⟨h.chem, h.mat, h.bound⟩⟩
+
+theorem step_newSplitIx (w : World) (h : Inv w) (c : Nat) :
+    (w.step (.newSplitIx c)).2 = (w.obs.step (.newSplitIx c)).2 ∧
+    (w.step (.newSplitIx c)).1.obs = (w.obs.step (.newSplitIx c)).1 ∧
+    Inv (w.step (.newSplitIx c)).1 := by
   simp only [World.step, PWorld.step, obs_chems_get]
   cases hs : w.chems[c]? with
   | none => exact ⟨rfl, rfl, h⟩
@@ -170,10 +195,78 @@ theorem step_set (w : World) (h : Inv w) (i : Nat) (key : PyKey) (d : Data) :
       | error e => exact ⟨rfl, ho, hv⟩
       | ok v =>
         obtain ⟨v, ids⟩ := v
-        simp only
-        cases setM s.chem ix.data v ids d with
-        | error e => exact ⟨rfl, by rw [obs_setData, ho], inv_setData hv _ _ _⟩
-        | ok data' => exact ⟨rfl, by rw [obs_setData, ho], inv_setData hv _ _ _⟩
+        exact ⟨rfl, by rw [obs_setData, ho], inv_setData hv _ _ _⟩
+
+theorem step_array (w : World) (h : Inv w) (c : Nat) (split : Bool) (key : PyKey) (d : Data) :
+    (w.step (.array c split key d)).2 = (w.obs.step (.array c split key d)).2 ∧
+    (w.step (.array c split key d)).1.obs = (w.obs.step (.array c split key d)).1 ∧
+    Inv (w.step (.array c split key d)).1 := by
+  simp only [World.step, PWorld.step, obs_chems_get]
+  cases hs : w.chems[c]? with
+  | none => exact ⟨rfl, rfl, h⟩
+  | some s =>
+    simp only [Option.map_some]
+    cases normC (tupleKey key) with
+    | error e => exact ⟨rfl, rfl, h⟩
+    | ok k =>
+      simp only
+      obtain ⟨h1, h2, h3, h4⟩ := lookup_spec s (h.chem s (List.mem_of_getElem? hs)) k
+      rw [← h1]
+      exact ⟨rfl, obs_setChem w hs h2 h3, inv_setChem h hs h2 h4⟩
+
+theorem step_getMass (w : World) (h : Inv w) (i : Nat) (key : PyKey) :
+    (w.step (.getMass i key)).2 = (w.obs.step (.getMass i key)).2 ∧
+    (w.step (.getMass i key)).1.obs = (w.obs.step (.getMass i key)).1 ∧
+    Inv (w.step (.getMass i key)).1 := by
+  simp only [World.step, PWorld.step, obs_chems_get]
+  have hix : w.obs.ixs = w.ixs := rfl
+  rw [hix]
+  cases hi : w.ixs[i]? with
+  | none => exact ⟨rfl, rfl, h⟩
+  | some ix =>
+    simp only
+    cases hs : w.chems[ix.chem]? with
+    | none => exact ⟨rfl, rfl, h⟩
+    | some s =>
+      simp only [Option.map_some]
+      obtain ⟨h1, h2, h3, h4, h5⟩ :=
+        resolveIx_spec s (w.mcacheOf ix) ix.phases key (h.chem s (List.mem_of_getElem? hs)) (mcacheOf_ok h ix hs)
+      rw [← h1]
+      generalize resolveIx s (w.mcacheOf ix) ix.phases key = R at h1 h2 h3 h4 h5
+      obtain ⟨r, s', mc'⟩ := R
+      simp only at h1 h2 h3 h4 h5 ⊢
+      cases r with
+      | error e => exact ⟨rfl, obs_putCaches w ix mc' hs h2 h3, inv_putCaches h ix hs h2 h4 h5⟩
+      | ok v => exact ⟨rfl, obs_putCaches w ix mc' hs h2 h3, inv_putCaches h ix hs h2 h4 h5⟩
+
+theorem step_setMass (w : World) (h : Inv w) (i : Nat) (key : PyKey) (d : Data) :
+    (w.step (.setMass i key d)).2 = (w.obs.step (.setMass i key d)).2 ∧
+    (w.step (.setMass i key d)).1.obs = (w.obs.step (.setMass i key d)).1 ∧
+    Inv (w.step (.setMass i key d)).1 := by
+  simp only [World.step, PWorld.step, obs_chems_get]
+  have hix : w.obs.ixs = w.ixs := rfl
+  rw [hix]
+  cases hi : w.ixs[i]? with
+  | none => exact ⟨rfl, rfl, h⟩
+  | some ix =>
+    simp only
+    cases hs : w.chems[ix.chem]? with
+    | none => exact ⟨rfl, rfl, h⟩
+    | some s =>
+      simp only [Option.map_some]
+      obtain ⟨h1, h2, h3, h4, h5⟩ :=
+        resolveIx_spec s (w.mcacheOf ix) ix.phases key (h.chem s (List.mem_of_getElem? hs)) (mcacheOf_ok h ix hs)
+      rw [← h1]
+      generalize resolveIx s (w.mcacheOf ix) ix.phases key = R at h1 h2 h3 h4 h5
+      obtain ⟨r, s', mc'⟩ := R
+      simp only at h1 h2 h3 h4 h5 ⊢
+      have ho := obs_putCaches w ix mc' hs h2 h3
+      have hv := inv_putCaches h ix hs h2 h4 h5
+      cases r with
+      | error e => exact ⟨rfl, ho, hv⟩
+      | ok v =>
+        obtain ⟨v, ids⟩ := v
+        exact ⟨rfl, by rw [obs_setData, ho], inv_setData hv _ _ _⟩
 
 theorem step_transfer (w : World) (h : Inv w) (l r : Nat) (add : Bool) :
     (w.transfer l r add).2 = (w.obs.transfer l r add).2 ∧
@@ -187,36 +280,69 @@ theorem step_transfer (w : World) (h : Inv w) (l r : Nat) (add : Bool) :
   | some il =>
     cases hr : w.ixs[r]? with
     | none => exact ⟨rfl, rfl, h⟩
-    | some ir =>
+    | some ir0 =>
       simp only
       cases hsl : w.chems[il.chem]? with
       | none => exact ⟨rfl, rfl, h⟩
       | some sl =>
-        cases hsr : w.chems[ir.chem]? with
+        cases hsr : w.chems[ir0.chem]? with
         | none => exact ⟨rfl, rfl, h⟩
         | some sr =>
           simp only [Option.map_some]
+          cases flatSource il ir0 add with
+          | none => exact ⟨rfl, rfl, h⟩
+          | some ir =>
+          simp only
+          have hinv : ∀ (w' : World) (ix' : Indexer), Inv w' → Inv (w'.putIx l ix') :=
+            fun w' ix' hv => ⟨hv.chem, hv.mat, hv.bound⟩
+          have hobs : ∀ (w' : World) (ix' : Indexer), w'.obs = w.obs → (w'.putIx l ix').obs = w.obs.putIx l ix' := by
+            intro w' ix' ho
+            simp only [World.putIx, PWorld.putIx, World.obs] at ho ⊢
+            rw [PWorld.mk.injEq] at ho ⊢
+            exact ⟨ho.1, by rw [ho.2]⟩
           split
           · -- same chemicals object: no memo is touched, the receiver may grow in place
             split
-            · exact ⟨rfl, rfl, ⟨h.chem, h.mat, h.bound⟩⟩
+            · exact ⟨rfl, rfl, hinv w _ h⟩
             · exact ⟨rfl, rfl, h⟩
           · split
-            · rename_i rowL rowR _ _ _ _
+            · -- single-phase receiver
+              split
+              · rename_i rowL rowR _ _ _
+                obtain ⟨o1, o2, o3, o4⟩ := overlap_spec sl (h.chem sl (List.mem_of_getElem? hsl))
+                  ((nonzeroPositions rowR).map fun i => sr.cas.getD i "")
+                rw [← o1]
+                generalize sl.overlap ((nonzeroPositions rowR).map fun i => sr.cas.getD i "") = R at o1 o2 o3 o4
+                obtain ⟨res, sl'⟩ := R
+                simp only at o1 o2 o3 o4 ⊢
+                have ho := obs_setChem w hsl o2 o3
+                have hv := inv_setChem h hsl o2 o4
+                generalize transferRow rowL rowR add (nonzeroPositions rowR) res = T
+                obtain ⟨row', oe⟩ := T
+                cases oe with
+                | some e => exact ⟨rfl, hobs _ _ ho, hinv _ _ hv⟩
+                | none => exact ⟨rfl, hobs _ _ ho, hinv _ _ hv⟩
+              · exact ⟨rfl, rfl, h⟩
+            · -- multi-phase receiver: `index_overlap`, then the phase logic on the carried-over rows
               obtain ⟨o1, o2, o3, o4⟩ := overlap_spec sl (h.chem sl (List.mem_of_getElem? hsl))
-                ((nonzeroPositions rowR).map fun i => sr.cas.getD i "")
+                ((unionNonzero ir.data).map fun i => sr.cas.getD i "")
               rw [← o1]
-              generalize sl.overlap ((nonzeroPositions rowR).map fun i => sr.cas.getD i "") = R at o1 o2 o3 o4
+              generalize sl.overlap ((unionNonzero ir.data).map fun i => sr.cas.getD i "") = R at o1 o2 o3 o4
               obtain ⟨res, sl'⟩ := R
               simp only at o1 o2 o3 o4 ⊢
               have ho := obs_setChem w hsl o2 o3
               have hv := inv_setChem h hsl o2 o4
-              generalize transferRow rowL rowR add (nonzeroPositions rowR) res = T
-              obtain ⟨row', oe⟩ := T
-              cases oe with
-              | some e => exact ⟨rfl, by simp only [World.putIx, PWorld.putIx, World.obs] at ho ⊢; rw [PWorld.mk.injEq] at ho ⊢; exact ⟨ho.1, rfl⟩, ⟨hv.chem, hv.mat, hv.bound⟩⟩
-              | none => exact ⟨rfl, by simp only [World.putIx, PWorld.putIx, World.obs] at ho ⊢; rw [PWorld.mk.injEq] at ho ⊢; exact ⟨ho.1, rfl⟩, ⟨hv.chem, hv.mat, hv.bound⟩⟩
-            · exact ⟨rfl, rfl, h⟩
+              cases res with
+              | error e =>
+                simp only
+                cases growOnly sl.chem.size il ir add with
+                | some il' => exact ⟨rfl, hobs _ _ ho, hinv _ _ hv⟩
+                | none => exact ⟨rfl, ho, hv⟩
+              | ok lix =>
+                simp only
+                cases transferSame sl.chem.size il (mapIndexer sl.chem.size lix (unionNonzero ir.data) ir) add false with
+                | some il' => exact ⟨rfl, hobs _ _ ho, hinv _ _ hv⟩
+                | none => exact ⟨rfl, ho, hv⟩
 
 /-- One step of the memoising world is one step of the memo-free specification: same
 answer, same tables and data afterwards, and every memoised pair is still correct. -/
@@ -225,9 +351,13 @@ theorem step_sim (w : World) (h : Inv w) (op : Op) :
   cases op with
   | compile specs => exact step_compile w h specs
   | alias c id a => exact step_alias w h c id a
-  | group c name ids comp => exact step_group w h c name ids comp
+  | group c name ids comp wt => exact step_group w h c name ids comp wt
+  | array c split key d => exact step_array w h c split key d
+  | getMass i key => exact step_getMass w h i key
+  | setMass i key d => exact step_setMass w h i key d
   | newChemIx c ph => exact step_newChemIx w h c ph
   | newMatIx c ps => exact step_newMatIx w h c ps
+  | newSplitIx c => exact step_newSplitIx w h c
   | get i key => exact step_get w h i key
   | set i key d => exact step_set w h i key d
   | copyLike l r => exact step_transfer w h l r false
@@ -268,7 +398,7 @@ theorem lookup_eq_resolve (ops : List Op) (i : Nat) (key : PyKey) :
         | some s =>
           match resolveIxP s.chem ix.phases key with
           | .error e => .err e
-          | .ok (v, _) => .val (getM ix.data v) := by
+          | .ok (v, _) => .val (readIx ix v) := by
   generalize hw : (World.run {} ops).1 = w
   have hinv : Inv w := hw ▸ (cache_transparent ops).2
   rw [(step_sim w hinv (.get i key)).1]
@@ -290,11 +420,11 @@ theorem lookup_eq_resolve (ops : List Op) (i : Nat) (key : PyKey) :
 /-! ### Non-vacuity: a concrete history (memo hits included) and its answers -/
 
 def exSpecs : List Spec :=
-  [⟨"Water", "7732-18-5", ["H2O", "water"]⟩, ⟨"Ethanol", "64-17-5", ["C2H6O", "ethanol"]⟩,
-   ⟨"DME", "115-10-6", ["C2H6O", "ether"]⟩]
+  [⟨"Water", "7732-18-5", ["H2O", "water"], 18⟩, ⟨"Ethanol", "64-17-5", ["C2H6O", "ethanol"], 46⟩,
+   ⟨"DME", "115-10-6", ["C2H6O", "ether"], 46⟩]
 
 def exHistory : List Op :=
-  [.compile exSpecs, .group 0 "Alc" ["Ethanol", "DME"] (some [1, 3]), .newChemIx 0 'l', .newMatIx 0 ['l', 'g'],
+  [.compile exSpecs, .group 0 "Alc" ["Ethanol", "DME"] (some [1, 3]) false, .newChemIx 0 'l', .newMatIx 0 ['l', 'g'],
    .set 0 (.leaf .ell) (.vec [1, 2, 4]), .get 0 (.leaf (.str "Alc")), .get 0 (.leaf (.str "Alc")),
    .set 0 (.leaf (.str "Alc")) (.scalar 8), .get 0 (.tup [.leaf (.str "H2O"), .leaf (.str "Alc")]),
    .set 1 (.tup [.leaf (.str "l"), .leaf .ell]) (.vec [1, 2, 4]),
@@ -437,6 +567,89 @@ theorem set_frame (c : Chem) (row row' : Row) (ix : Ix) (k : HKey) (d : Data)
       exact ⟨fun j hj => writeZip_frame _ _ _ _ hj, length_writeZip _ _ _⟩
     | mat => simp [setIx] at h
 
+/-- **set_frame for rejected writes.**  A write that raises may already have written part of
+what its key addresses (a nested key with too few data: the elements before the missing one; a
+reset with 2-d data: the row is emptied first) — but never an entry the key does not address. -/
+theorem set_fail_frame (c : Chem) (row : Row) (ix : Ix) (k : HKey) (d : Data) :
+    (∀ j, j ∉ positions ix row.length → getAt (setIxFail c row ix k d) j = getAt row j) ∧
+    (setIxFail c row ix k d).length = row.length := by
+  unfold setIxFail
+  split
+  · refine ⟨?_, by simp⟩
+    intro j hj
+    simp only [positions, List.mem_range, Nat.not_lt] at hj
+    rw [getAt_ge _ _ (by simpa using hj), getAt_ge _ _ hj]
+  · rename_i es xs
+    exact ⟨fun j hj => (nestedPrefix_frame c k xs es row 0 j).1 hj, (nestedPrefix_frame c k xs es row 0 0).2⟩
+  · rename_i es x
+    split
+    · exact ⟨fun _ _ => rfl, rfl⟩
+    · exact ⟨fun j hj => (nestedScalarPrefix_frame c k x es row 0 j).1 hj, (nestedScalarPrefix_frame c k x es row 0 0).2⟩
+  · exact ⟨fun _ _ => rfl, rfl⟩
+
+/-- non-vacuity: `('Water', 'Alc', 'Water') = [3]` writes Water, then fails on the missing datum -/
+example :
+    let c : Chem := { size := 3, index := [], comps := [("Alc", [1/4, 3/4])] }
+    let k : HKey := .tup [.leaf (.str "Water"), .leaf (.str "Alc"), .leaf (.str "Water")]
+    (setIx c [1, 2, 4] (.nested [.pos 0, .grp [1, 2], .pos 0]) k (.vec [3])).toOption = none ∧
+    setIxFail c [1, 2, 4] (.nested [.pos 0, .grp [1, 2], .pos 0]) k (.vec [3]) = [3, 2, 4] := by
+  decide +kernel
+
+/-! ### `SplitIndexer` -/
+
+/-- **set_frame (SplitIndexer).**  Whether the write succeeds or raises, entries the key does
+not address are untouched. -/
+theorem setSplit_frame (row : Row) (ix : Ix) (d : Data) :
+    (∀ j, j ∉ positions ix row.length → getAt (setSplit row ix d).1 j = getAt row j) ∧
+    (setSplit row ix d).1.length = row.length := by
+  have allcase : ∀ (r : Row), r.length = row.length →
+      (∀ j, j ∉ positions .all row.length → getAt r j = getAt row j) ∧ r.length = row.length := by
+    intro r hr
+    refine ⟨?_, hr⟩
+    intro j hj
+    simp only [positions, List.mem_range, Nat.not_lt] at hj
+    rw [getAt_ge _ _ (by rw [hr]; exact hj), getAt_ge _ _ hj]
+  cases ix with
+  | all => cases d <;> simp only [setSplit] <;> exact allcase _ (by simp)
+  | one i =>
+    cases d <;> simp only [setSplit]
+    · exact ⟨by intro j hj; simp only [positions, List.mem_singleton] at hj; exact getAt_setAt_ne _ _ hj,
+        length_setAt _ _ _⟩
+    · simp
+    · simp
+  | grp is =>
+    cases d <;> simp only [setSplit]
+    · exact ⟨fun j hj => writeAll_frame _ _ _ _ hj, length_writeAll _ _ _⟩
+    · exact ⟨fun j hj => writeZip_frame _ _ _ _ hj, length_writeZip _ _ _⟩
+    · simp
+  | arr is =>
+    cases d <;> simp only [setSplit]
+    · exact ⟨fun j hj => writeAll_frame _ _ _ _ hj, length_writeAll _ _ _⟩
+    · exact ⟨fun j hj => writeZip_frame _ _ _ _ hj, length_writeZip _ _ _⟩
+    · simp
+  | nested es =>
+    cases d with
+    | scalar x =>
+      simp only [setSplit]
+      exact ⟨fun j hj => (splitNestedScalar_frame x es row j).1 hj, (splitNestedScalar_frame x es row 0).2⟩
+    | vec xs =>
+      simp only [setSplit]
+      have := fun j => splitNestedVec_frame xs es row 0 j
+      generalize splitNestedVec xs row 0 es = R at this
+      obtain ⟨r, b⟩ := R
+      cases b <;> exact ⟨fun j hj => (this j).1 hj, (this 0).2⟩
+    | mat => simp only [setSplit]; simp
+
+/-- **set_get (SplitIndexer, group).**  A scalar written to a group name is the split of every
+member (no composition is involved), and reads back as such. -/
+theorem setSplit_grp_scalar (row : Row) (is : List Nat) (x : Rat) (hb : ∀ i, i ∈ is → i < row.length) :
+    getSplit (setSplit row (.grp is) (.scalar x)).1 (.grp is) = .vec (is.map fun _ => x) := by
+  simp only [setSplit, getSplit]
+  congr 1
+  apply List.map_congr_left
+  intro j hj
+  exact writeAll_read is row x j hj hb
+
 /-- **set_get** (one chemical): reading back returns the scalar written. -/
 theorem set_get_one (c : Chem) (row : Row) (i : Nat) (k : HKey) (x : Rat) (hi : i < row.length) :
     (setIx c row (.one i) k (.scalar x)).map (fun r => getIx r (.one i)) = .ok (.scalar x) := by
@@ -542,7 +755,7 @@ theorem set_get_nested_vec (c : Chem) (row row' : Row) (es : List Ent) (k : HKey
 
 /-- non-vacuity of `set_get_nested_vec`: `('Water', 'Alc') = [3, 4]` on the row (1, 2, 4) -/
 example :
-    let c : Chem := ⟨3, [], [("Alc", [1/4, 3/4])]⟩
+    let c : Chem := { size := 3, index := [], comps := [("Alc", [1/4, 3/4])] }
     let k : HKey := .tup [.leaf (.str "Water"), .leaf (.str "Alc")]
     (setIx c [1, 2, 4] (.nested [.pos 0, .grp [1, 2]]) k (.vec [3, 4])).toOption = some [3, 1, 3] ∧
     NestedOK c k 0 [.pos 0, .grp [1, 2]] := by
@@ -596,7 +809,7 @@ example : (evict1 ((List.range 101).map fun i => (i, i))).map Prod.fst = (List.r
 
 /-- non-vacuity of `set_group_scalar` / `set_frame`: 8 written to a group with composition
 (1/4, 3/4) at positions 1, 2 of the row (1, 2, 4) -/
-example : (setIx ⟨3, [], [("Alc", [1/4, 3/4])]⟩ [1, 2, 4] (.grp [1, 2]) (.leaf (.str "Alc")) (.scalar 8)).toOption
+example : (setIx { size := 3, index := [], comps := [("Alc", [1/4, 3/4])] } [1, 2, 4] (.grp [1, 2]) (.leaf (.str "Alc")) (.scalar 8)).toOption
     = some [1, 2, 6] := by decide +kernel
 
 /-- **set_group_scalar.**  A scalar written to a group is distributed over the members by
@@ -684,8 +897,174 @@ example : (compile exSpecs).toOption.map (·.index) = some [("7732-18-5", .pos 0
   decide +kernel
 
 /-- the collision rule: a name that is another chemical's ID aborts the construction -/
-example : (compile [⟨"Ethanol", "64-17-5", ["ethanol"]⟩, ⟨"ethanol", "67-56-1", ["methanol"]⟩]).toOption = none := by
+example : (compile [⟨"Ethanol", "64-17-5", ["ethanol"], 46⟩, ⟨"ethanol", "67-56-1", ["methanol"], 32⟩]).toOption = none := by
   decide +kernel
+
+/-! ### Names of chemicals never move -/
+
+/-- The tables of chemicals object `c` after one more operation. -/
+theorem step_chems (p : PWorld) (op : Op) (c : Nat) (chem : Chem) (cas : List String)
+    (h : p.chems[c]? = some (chem, cas)) :
+    ∃ chem', (p.step op).1.chems[c]? = some (chem', cas) ∧
+      ∀ k i, alookup k chem.index = some (.pos i) → alookup k chem'.index = some (.pos i) := by
+  have keep : ∀ q : PWorld, q.chems = p.chems →
+      ∃ chem', q.chems[c]? = some (chem', cas) ∧
+        ∀ k i, alookup k chem.index = some (.pos i) → alookup k chem'.index = some (.pos i) :=
+    fun q hq => ⟨chem, by rw [hq]; exact h, fun _ _ hk => hk⟩
+  have hlt : c < p.chems.length := (List.getElem?_eq_some_iff.mp h).1
+  cases op with
+  | compile specs =>
+    simp only [PWorld.step]
+    split
+    · refine ⟨chem, ?_, fun _ _ hk => hk⟩
+      simp only
+      rw [List.getElem?_append_left hlt]; exact h
+    · exact keep _ rfl
+  | alias c' id a =>
+    simp only [PWorld.step]
+    split
+    · exact keep _ rfl
+    · rename_i chem0 cas0 h0
+      by_cases hc : c' = c
+      · subst hc
+        rw [h] at h0; cases h0
+        split
+        · exact ⟨chem.setAliasFail reservedAll id a, by simp [hlt], fun k i hk => setAliasFail_mono chem _ _ _ hk⟩
+        · rename_i chem' ha
+          exact ⟨_, by simp [hlt], fun k i hk => setAlias_mono ha hk⟩
+      · split <;> exact ⟨chem, by simp [hc, h], fun _ _ hk => hk⟩
+  | group c' name ids comp wt =>
+    simp only [PWorld.step]
+    split
+    · exact keep _ rfl
+    · rename_i chem0 cas0 h0
+      by_cases hc : c' = c
+      · subst hc
+        rw [h] at h0; cases h0
+        split
+        · exact keep _ rfl
+        · rename_i chem' ha
+          exact ⟨_, by simp [hlt], fun k i hk => defineGroup_keeps_pos ha hk⟩
+      · split
+        · exact keep _ rfl
+        · exact ⟨chem, by simp [hc, h], fun _ _ hk => hk⟩
+  | newChemIx c' ph =>
+    simp only [PWorld.step]; split <;> exact keep _ rfl
+  | newMatIx c' ps =>
+    simp only [PWorld.step]; split <;> exact keep _ rfl
+  | newSplitIx c' =>
+    simp only [PWorld.step]; split <;> exact keep _ rfl
+  | array c' sp key d =>
+    simp only [PWorld.step]
+    split
+    · exact keep _ rfl
+    · split <;> exact keep _ rfl
+  | get i key =>
+    simp only [PWorld.step]
+    split
+    · exact keep _ rfl
+    · split
+      · exact keep _ rfl
+      · split <;> exact keep _ rfl
+  | getMass i key =>
+    simp only [PWorld.step]
+    split
+    · exact keep _ rfl
+    · split
+      · exact keep _ rfl
+      · split <;> exact keep _ rfl
+  | set i key d =>
+    simp only [PWorld.step]
+    split
+    · exact keep _ rfl
+    · split
+      · exact keep _ rfl
+      · split <;> exact keep _ rfl
+  | setMass i key d =>
+    simp only [PWorld.step]
+    split
+    · exact keep _ rfl
+    · split
+      · exact keep _ rfl
+      · split <;> exact keep _ rfl
+  | copyLike l r =>
+    simp only [PWorld.step, PWorld.transfer]
+    repeat' split
+    all_goals exact keep _ rfl
+  | mixFrom l r =>
+    simp only [PWorld.step, PWorld.transfer]
+    repeat' split
+    all_goals exact keep _ rfl
+
+/-- **names_never_move.**  Whatever happens afterwards — aliases (accepted, rejected or
+half-entered), groups (defined, redefined, rejected), lookups, writes, transfers — a name that
+resolves to the position of a chemical keeps resolving to that position (a group can never take
+over the name of a chemical: fix C10-5), in the specification … -/
+theorem names_never_move_spec (ops : List Op) : ∀ (p : PWorld) (c : Nat) (chem : Chem) (cas : List String),
+    p.chems[c]? = some (chem, cas) →
+    ∃ chem', (p.run ops).1.chems[c]? = some (chem', cas) ∧
+      ∀ k i, alookup k chem.index = some (.pos i) → alookup k chem'.index = some (.pos i) := by
+  induction ops with
+  | nil => intro p c chem cas h; exact ⟨chem, h, fun _ _ hk => hk⟩
+  | cons op t ih =>
+    intro p c chem cas h
+    obtain ⟨chem1, h1, k1⟩ := step_chems p op c chem cas h
+    obtain ⟨chem2, h2, k2⟩ := ih (p.step op).1 c chem1 cas h1
+    exact ⟨chem2, by simpa [PWorld.run] using h2, fun k i hk => k2 k i (k1 k i hk)⟩
+
+/-- … and therefore in the memoising world, from any state with correct memos. -/
+theorem names_never_move (ops : List Op) (w : World) (hw : Inv w) (c : Nat) (s : CState)
+    (h : w.chems[c]? = some s) :
+    ∃ s', (w.run ops).1.chems[c]? = some s' ∧
+      ∀ k i, alookup k s.chem.index = some (.pos i) → alookup k s'.chem.index = some (.pos i) := by
+  obtain ⟨_, ho, _⟩ := cache_transparent_from ops w hw
+  obtain ⟨chem', h', k'⟩ := names_never_move_spec ops w.obs c s.chem s.cas (by simp [obs_chems_get, h])
+  rw [← ho, obs_chems_get] at h'
+  cases hs : (w.run ops).1.chems[c]? with
+  | none => simp [hs] at h'
+  | some s' =>
+    simp only [hs, Option.map_some, Option.some.injEq, Prod.mk.injEq] at h'
+    exact ⟨s', rfl, fun k i hk => h'.1 ▸ k' k i hk⟩
+
+/-- non-vacuity: a group may not take the name of a chemical or of an attribute; a group name as
+`ID` of `set_alias` fails but leaves a second name of the group behind -/
+example :
+    let c : Chem := { size := 2, index := [("Water", .pos 0), ("Ethanol", .pos 1), ("G", .grp [0, 1])],
+                      comps := [("G", [1/2, 1/2])] }
+    (c.defineGroup reservedAll "Water" ["Ethanol"] none).toOption = none ∧
+    (c.defineGroup reservedAll "size" ["Ethanol"] none).toOption = none ∧
+    ((c.defineGroup reservedAll "G" ["Ethanol"] none).toOption.map (·.index)) =
+      some [("Water", .pos 0), ("Ethanol", .pos 1), ("G", .grp [1])] ∧
+    (c.setAlias reservedAll "G" "gg").toOption = none ∧
+    (c.setAliasFail reservedAll "G" "gg").index = c.index ++ [("gg", .grp [0, 1])] := by
+  decide +kernel
+
+/-! ### Keys nested too deeply -/
+
+theorem lookupItems_deep (c : Chem) : ∀ (l : List HItem) (h : Bool), HItem.leaf (.deep h) ∈ l →
+    lookupItems c l = .error .undefinedAlias
+  | [], _, hm => by cases hm
+  | it :: t, h, hm => by
+    simp only [lookupItems]
+    rcases List.mem_cons.mp hm with hm | hm
+    · subst hm; simp [lookupItem, bind, Except.bind]
+    · cases hi : lookupItem c it with
+      | error e =>
+        cases it with
+        | leaf a => cases a <;> simp_all [lookupItem, Chem.lookup, bind, Except.bind] <;> (split at hi <;> simp_all)
+        | tup l => simp_all [lookupItem, bind, Except.bind]
+      | ok e => simp [bind, Except.bind, lookupItems_deep c t h hm]
+
+/-- A sequence where a name belongs is never a name: the key does not resolve
+(`UndefinedChemicalAlias`), and when a list hides inside it cannot even be hashed (`TypeError`). -/
+theorem deep_key_rejected (c : Chem) (l : List HItem) (h : Bool) (hm : HItem.leaf (.deep h) ∈ l) :
+    resolveC c (.tup l) = .error .undefinedAlias := by
+  simp [resolveC, lookupItems_deep c l h hm, bind, Except.bind]
+
+example : normC (.tup [.leaf (.str "Water"), .tup [.deep false]]) = .error .typeError ∧
+    normM (.tup [.leaf (.str "l"), .lst [.str "Water", .deep false]]) = .error .typeError ∧
+    normM (.tup [.leaf (.str "l"), .lst [.str "Water", .deep true]]) =
+      .ok (.tup [.leaf (.str "l"), .tup [.str "Water", .deep true]]) := ⟨rfl, rfl, rfl⟩
 
 /-! ## Phases: `phase_lookup` -/
 
@@ -760,7 +1139,7 @@ def exGrow : List Op :=
    .get 0 (.tup [.leaf (.str "g"), .leaf (.str "Ethanol")])]
 
 example : (World.run {} exGrow).2.drop 7 =
-    [.val (.scalar 10), .state ⟨0, some ['g', 'l', 's'], [[1, 5, 0], [10, 2, 0], [0, 0, 0]], 'l'⟩,
+    [.val (.scalar 10), .state ⟨0, some ['g', 'l', 's'], [[1, 5, 0], [10, 2, 0], [0, 0, 0]], 'l', false⟩,
      .val (.scalar 10), .val (.scalar 7), .val (.scalar 5)] ∧
     (World.run {} exGrow).1.mcaches.map (·.1) = [(0, ['l', 's']), (0, ['g', 'l', 's'])] := by
   decide +kernel
